@@ -79,7 +79,7 @@ FUEL = 900
 
 RE_TOKS = ["if", "el", "else", "elif", "se", "except", "finally", "for", "try", "with", "while", "def", "class", "x",
            ":", "#", " ", "\t", "\n", "\x0c", "\xa0"]
-PR_LINES = ["if x:", "elif y:", "else:", "for a in b:", "while 1:", "try:", "except A:", "except:", "finally:",
+PR_LINES = ["if x:", "elif y:", "else:", "for a in b:", "while 1:", "try:", "except A:", "except:", "except B:", "finally:",
             "with a as b:", "def f():", "class C:", "pass", "__M_writer('a')", "# c", "  # c", "", "  ", "x = {1:",
             "else", "format = context.get('format', UNDEFINED)", "if x: # c", "else: #c", "x = 1 # if:",
             "elsewhere = 3:", "iffy:", "\n"]
@@ -418,8 +418,6 @@ def hazards(body):
     """names of the recorded-finding shapes present in a template (sorted list)"""
     hz = set()
     for n in G.walk(body):
-        if n[0] == "try" and len(n[2]) >= 2:
-            hz.add("multi-except")
         if n[0] in ("if", "for", "while", "try", "with"):
             for b in G.sub_bodies(n):
                 real = [c for c in b if c[0] != "comment"]
@@ -992,7 +990,6 @@ def quirk_trees():
     F = G.FL
     loop_i = ["expr", ["loop", "index"]]
     return {
-        "multi-except": [[["try", [["expr", ["kboom"]]], [["Boom", [["text", "b"]]], ["KeyError", [["text", "k"]]]], _o(4)]]],
         "silent-suite": [[["if", [[["truthy", ["lit", "p"]], [["def", 1, [], F(), [["text", "q"]]]]]], None, _o(2)],
                           ["text", "z"]]],
         "ret-in-buffering": [
@@ -1024,7 +1021,6 @@ def quirk_trees():
 
 
 QUIRKS = [
-    ("multi-except", dict(multi_except=True, constructs={"text": 4, "expr": 5, "try": 6, "if": 1, "for": 1})),
     ("silent-suite", dict(silent_suite=True, constructs={"text": 1, "def": 6, "if": 3, "for": 2, "comment": 1}, max_body=2)),
     ("ret-in-buffering", dict(ret_in_buffered=True, constructs={"text": 4, "expr": 4, "def": 5, "ret": 3, "if": 1})),
     ("loop-only-in-closure", dict(loop_only_in_closure=True, loop_only_in_call_expr=True, p_loop_use=0.1,
@@ -1090,6 +1086,9 @@ def handwritten(ctx):
          {}, "1F\n", None),
         ("with", "% with cm('t') as f:\n${f}\n% endwith\n${closedcount()}", {}, "t!\n1/1", None),
         ("typed-except", "% try:\n${kboom()}\n% except KeyError:\nK\n% endtry\n", {"__k": 0}, "K\n", None),
+        ("several-excepts", "% try:\n${kboom()}\n% except Boom:\nB\n% except KeyError:\nK\n% except:\nO\n% endtry\n"
+                            "% try:\n${boom()}\n% except KeyError:\nK\n% except Exception:\nE\n% endtry\n", {"__k": 0},
+         "K\n\n", None),
         ("loop-after-try", "% for a in [1, 2]:\n% try:\n% for b in [7, 8]:\n${loop.index}${boom()}\n% endfor\n% except Boom:\n"
                            "!${loop.index}\n% endtry\n% endfor\n", {"__k": 1}, "0\n1!0\n0\n1\n", None),
         ("modcode-only-suite", "% if x:\n<%! import os %>\\\n% endif\nok", {"x": 1}, "ok", "header-suite-of-module-code"),
@@ -1127,7 +1126,7 @@ def run(ctx):
                     ctx.branch("node:" + kk, v)
                 hz = hazards(body)
                 if not cfg.effective:       # nothing is mangled: only the shapes that do not involve `loop` matter
-                    hz = [h for h in hz if h in ("multi-except", "silent-suite", "ret-in-buffering")]
+                    hz = [h for h in hz if h in ("silent-suite", "ret-in-buffering")]
                 if hz:
                     ctx.branch("generator:hazard-in-main-stream:" + "+".join(hz))
                 run_template(ctx, body, cfg, "oracle.native", st, pending, skel, lowered, n)
